@@ -2,15 +2,6 @@
 
 package ws
 
-import (
-	"bytes"
-	"context"
-	"net"
-	"net/url"
-
-	"github.com/gobwas/httphead"
-)
-
 // vB64Val: reference base64 alphabet (RFC 4648 §4) value of a character, 64 if not in the alphabet.
 func vB64Val(c byte) uint64 {
 	return vIte(vIn(c, 'A', 'Z'), uint64(c-'A'),
@@ -31,334 +22,4 @@ func vIsKey16(k []byte) bool {
 	// 16 bytes = 21 full sextets + 2 bits: the 22nd character carries 2 data bits, low 4 zero
 	ok = vAnd(ok, vB64Val(k[21])&0xf == 0)
 	return vAnd(ok, vAnd(k[22] == '=', k[23] == '='))
-}
-
-// C10_request_wellformed: the upgrade request is a well-formed GET with every mandatory header
-// exactly once, a key that is base64 of 16 bytes, and the configured lists.
-func C10_request_wellformed() {
-	var d Dialer
-	u := &url.URL{Scheme: "ws", Host: "example.com:8080", Path: "/chat", RawQuery: "x=1"}
-	wantURI := "/chat?x=1"
-	switch vChoose("url", 6) {
-	case 3: // a path that needs escaping: the request-URI carries the escaped form
-		u = &url.URL{Scheme: "ws", Host: "h", Path: "/chat room/x", RawQuery: "q=a%20b"}
-		wantURI = "/chat%20room/x?q=a%20b"
-	case 4: // an explicit raw path whose escaping differs from the default one
-		u = &url.URL{Scheme: "ws", Host: "h", Path: "/a/b/c?d", RawPath: "/a%2Fb/c%3Fd"}
-		wantURI = "/a%2Fb/c%3Fd"
-	case 5: // opaque form and a bare '?'
-		u = &url.URL{Scheme: "ws", Host: "h", Path: "/p", ForceQuery: true}
-		wantURI = "/p?"
-	case 1:
-		u = &url.URL{Scheme: "wss", Host: "[::1]", Path: "/"}
-		wantURI = "/"
-	case 2:
-		u = &url.URL{Scheme: "ws", Host: "h", Path: ""}
-		wantURI = "/"
-	}
-	wantHost := u.Host
-	if vChoose("hostoverride", 2) == 1 {
-		d.Host = "override.example"
-		wantHost = d.Host
-	}
-	np := vChoose("protocols", 3)
-	d.Protocols = []string{"chat", "superchat"}[:np]
-	nx := vChoose("extensions", 3)
-	d.Extensions = []httphead.Option{
-		httphead.NewOption("permessage-deflate", map[string]string{"client_max_window_bits": "10"}),
-		httphead.NewOption("x-ext", nil),
-	}[:nx]
-	if vChoose("header", 2) == 1 {
-		d.Header = HandshakeHeaderString("X-Custom: 7\r\n")
-	}
-	srv := &vServer{resp: func(key []byte) []byte { return nil }}
-	d.Upgrade(srv, u) // fails at EOF; only the request matters here
-	r := vParseReq(srv.out)
-	vAssert(r.ok, "req.wellformed_head")
-	if !r.ok {
-		return
-	}
-	vAssert(r.line == "GET "+wantURI+" HTTP/1.1", "req.request_line")
-	for _, hv := range [][2]string{{"Host", wantHost}, {"Upgrade", "websocket"}, {"Connection", "Upgrade"}, {"Sec-WebSocket-Version", "13"}} {
-		v, n := r.get(hv[0])
-		vAssert(vAnd(n == 1, string(v) == hv[1]), "req.mandatory_header_once_with_value")
-	}
-	k, n := r.get("Sec-WebSocket-Key")
-	vAssert(n == 1, "req.key_once")
-	vAssert(vIsKey16(k), "req.key_is_base64_of_16_bytes")
-	p, n := r.get("Sec-WebSocket-Protocol")
-	if np == 0 {
-		vAssert(n == 0, "req.no_protocol_header")
-	} else {
-		vAssert(vAnd(n == 1, string(p) == []string{"", "chat", "chat, superchat"}[np]), "req.protocols_listed")
-	}
-	x, n := r.get("Sec-WebSocket-Extensions")
-	if nx == 0 {
-		vAssert(n == 0, "req.no_extensions_header")
-	} else {
-		// optional white space around separators is immaterial (RFC 7230 list syntax)
-		xs := string(bytes.ReplaceAll(x, []byte(" "), nil))
-		vAssert(vAnd(n == 1, xs == []string{"", "permessage-deflate;client_max_window_bits=10", "permessage-deflate;client_max_window_bits=10,x-ext"}[nx]), "req.extensions_listed")
-	}
-	c, n := r.get("X-Custom")
-	if d.Header != nil {
-		vAssert(vAnd(n == 1, string(c) == "7"), "req.custom_header")
-	}
-	vTraceBytes("key", k[22:])
-}
-
-// C10_response_template: the dialer succeeds exactly for a valid 101 answer.
-func C10_response_template() {
-	vRandConcrete(true)
-	var d Dialer
-	d.Protocols = []string{"chat", "superchat"}
-	d.Extensions = []httphead.Option{httphead.NewOption("permessage-deflate", nil), httphead.NewOption("x-ext", nil)}
-	version := []byte("HTTP/1.1")
-	status := []byte("101")
-	upgrade := "Upgrade: websocket"
-	connection := "Connection: Upgrade"
-	var acceptMut func(a []byte) []byte
-	var extra []string
-	valid := true
-	determinate := true
-	wantProto := ""
-	wantExt := 0
-	dropAccept := false
-	env := vChoose("env", 4)
-	switch vChoose("perturb", 9) {
-	case 0:
-	case 1: // version digits
-		d1, d2 := vU8("vmaj"), vU8("vmin")
-		vAssume(vAnd(d1 != ' ', vAnd(d1 != '\r', vAnd(d1 != '\n', d1 != '.'))))
-		vAssume(vAnd(d2 != ' ', vAnd(d2 != '\r', vAnd(d2 != '\n', d2 != '.'))))
-		version = []byte{'H', 'T', 'T', 'P', '/', d1, '.', d2}
-		valid = vConcrete(vIte(vAnd(d1 == '1', vIn(d2, '1', '9')), 1, 0)) == 1
-	case 2: // status token: three arbitrary bytes
-		status = vBytes("status", 3)
-		for _, c := range status {
-			vAssume(vAnd(c != ' ', vAnd(c != '\r', c != '\n')))
-		}
-		valid = vConcrete(vIte(vEqBytes(status, []byte("101")), 1, 0)) == 1
-	case 3: // status token of other lengths
-		status = [][]byte{[]byte("1010"), []byte("0101"), []byte("10"), []byte("200")}[vChoose("statuslen", 4)]
-		valid = false
-		if string(status) == "0101" {
-			determinate = false // leading zero: numerically 101, left open
-		}
-	case 4: // Upgrade
-		switch vChoose("upgrade", 3) {
-		case 0:
-			upgrade = ""
-			valid = false
-		case 1:
-			upgrade = "upgrade: WebSocket"
-		case 2:
-			upgrade = "Upgrade: websockets"
-			valid = false
-		}
-	case 5: // Connection
-		switch vChoose("connection", 3) {
-		case 0:
-			connection = ""
-			valid = false
-		case 1:
-			connection = "CONNECTION:  upgrade "
-		case 2:
-			connection = "Connection: close"
-			valid = false
-		}
-	case 6: // accept value
-		switch vChoose("accept", 4) {
-		case 0:
-			dropAccept = true
-			valid = false
-		case 1: // one arbitrary byte at an arbitrary place
-			i := vChoose("pos", 28)
-			c := vU8("c")
-			vAssume(vAnd(c != '\r', vAnd(c != '\n', vAnd(c != ' ', c != '\t'))))
-			acceptMut = func(a []byte) []byte {
-				same := vConcrete(vIte(a[i] == c, 1, 0)) == 1
-				valid = same
-				a[i] = c
-				return a
-			}
-		case 2:
-			acceptMut = func(a []byte) []byte { return a[:27] }
-			valid = false
-		case 3:
-			acceptMut = func(a []byte) []byte { return append(a, '=') }
-			valid = false
-		}
-	case 7: // subprotocol
-		switch vChoose("proto", 3) {
-		case 0:
-			extra = append(extra, "Sec-WebSocket-Protocol: superchat")
-			wantProto = "superchat"
-		case 1:
-			extra = append(extra, "Sec-WebSocket-Protocol: other")
-			valid = false
-		case 2:
-			extra = append(extra, "sec-websocket-protocol: chat")
-			wantProto = "chat"
-		}
-	case 8: // extensions
-		switch vChoose("ext", 3) {
-		case 0:
-			extra = append(extra, "Sec-WebSocket-Extensions: permessage-deflate; server_no_context_takeover")
-			wantExt = 1
-		case 1:
-			extra = append(extra, "Sec-WebSocket-Extensions: x-ext, x-unknown")
-			valid = false
-		case 2:
-			extra = append(extra, "Sec-WebSocket-Extensions: x-ext", "X-Other: 1")
-			wantExt = 1
-		}
-	}
-	srv := &vServer{}
-	srv.resp = func(key []byte) []byte {
-		var b []byte
-		b = append(b, version...)
-		b = append(b, ' ')
-		b = append(b, status...)
-		b = append(b, " Switching Protocols\r\n"...)
-		acc := vAccept(key)
-		if acceptMut != nil {
-			acc = acceptMut(acc)
-		}
-		lines := []string{upgrade, connection}
-		if !dropAccept {
-			lines = append(lines, "Sec-WebSocket-Accept: "+string(acc))
-		}
-		lines = append(lines, extra...)
-		if env == 1 { // reversed header order
-			for i, j := 0, len(lines)-1; i < j; i, j = i+1, j-1 {
-				lines[i], lines[j] = lines[j], lines[i]
-			}
-		}
-		for _, l := range lines {
-			if l == "" {
-				continue
-			}
-			b = append(b, l...)
-			b = append(b, "\r\n"...)
-		}
-		return append(b, "\r\n"...)
-	}
-	if env == 2 {
-		srv.chunks = []int{1, 1, 1, 1, 1, 1, 1, 1, 1, 1, 1, 1, 1, 1, 1, 1, 1, 1, 1, 1}
-	}
-	if env == 3 {
-		d.ReadBufferSize = 256
-	}
-	u := &url.URL{Scheme: "ws", Host: "example.com", Path: "/"}
-	br, hs, err := d.Upgrade(srv, u)
-	if !determinate {
-		return
-	}
-	vAssert((err == nil) == valid, "resp.success_iff_valid_101")
-	if err != nil {
-		vAssert(br == nil, "resp.no_reader_on_error")
-		return
-	}
-	vAssert(hs.Protocol == wantProto, "resp.protocol_is_servers")
-	vAssert(len(hs.Extensions) == wantExt, "resp.extensions_are_servers")
-	vAssert(br == nil, "resp.nothing_buffered_no_reader")
-}
-
-// C10_trailing_bytes: bytes the server sends right after the head stay readable once, in order.
-func C10_trailing_bytes() {
-	vRandConcrete(true)
-	var d Dialer
-	t := vChoose("t", 4)
-	trailing := vBytes("trail", t)
-	d.ReadBufferSize = []int{0, 256}[vChoose("rbuf", 2)]
-	srv := &vServer{}
-	var headLen int
-	srv.resp = func(key []byte) []byte {
-		b := []byte("HTTP/1.1 101 Switching Protocols\r\nUpgrade: websocket\r\nConnection: Upgrade\r\nSec-WebSocket-Accept: " + string(vAccept(key)) + "\r\n\r\n")
-		headLen = len(b)
-		return append(b, trailing...)
-	}
-	// delivery: everything at once / head then trailing / head+1 byte then rest
-	switch vChoose("delivery", 3) {
-	case 1:
-		srv.chunks = []int{129}
-	case 2:
-		srv.chunks = []int{130}
-	}
-	u := &url.URL{Scheme: "ws", Host: "example.com", Path: "/"}
-	br, _, err := d.Upgrade(srv, u)
-	vAssert(err == nil, "trail.ok")
-	if err != nil {
-		return
-	}
-	_ = headLen
-	var got []byte
-	if br != nil {
-		n := br.Buffered()
-		vAssert(n > 0, "trail.reader_only_if_buffered")
-		p, _ := br.Peek(n)
-		got = append(got, p...)
-		br.Discard(n)
-		PutReader(br)
-	}
-	buf := make([]byte, 8)
-	for i := 0; i < 8; i++ {
-		n, err := srv.Read(buf)
-		got = append(got, buf[:n]...)
-		if err != nil {
-			break
-		}
-	}
-	vAssert(vEqBytes(got, trailing), "trail.every_byte_once_in_order")
-}
-
-// C10_hostport: ws/wss URLs are dialed at host:port with defaults 80/443; TLS gets the host name.
-func C10_hostport() {
-	if vChoose("level", 2) == 0 {
-		// unit: any host of <= 5 bytes over [a . : [ ]]
-		n := 1 + vChoose("n", 5)
-		h := make([]byte, n)
-		for i := range h {
-			h[i] = []byte{'a', '.', ':', '[', ']', '1'}[vChoose("c", 6)]
-		}
-		host := string(h)
-		name, addr := hostport(host, ":80")
-		colon := bytes.LastIndexByte(h, ':')
-		bracket := bytes.IndexByte(h, ']')
-		hasPort := colon > bracket
-		if hasPort {
-			vAssert(vAnd(addr == host, name == host[:colon]), "hostport.explicit_port_kept")
-		} else {
-			vAssert(vAnd(addr == host+":80", name == host), "hostport.default_port_added")
-		}
-		return
-	}
-	hosts := []string{"example.com", "example.com:8080", "[::1]", "[::1]:9000", "1.2.3.4:1"}
-	i := vChoose("host", len(hosts))
-	tls := vChoose("tls", 2) == 1
-	scheme, def := "ws", ":80"
-	if tls {
-		scheme, def = "wss", ":443"
-	}
-	wantAddr := []string{"example.com" + def, "example.com:8080", "[::1]" + def, "[::1]:9000", "1.2.3.4:1"}[i]
-	wantName := []string{"example.com", "example.com", "[::1]", "[::1]", "1.2.3.4"}[i]
-	var gotNet, gotAddr, gotName string
-	d := Dialer{
-		NetDial: func(ctx context.Context, network, addr string) (net.Conn, error) {
-			gotNet, gotAddr = network, addr
-			return &vNetConn{}, nil
-		},
-		TLSClient: func(c net.Conn, hostname string) net.Conn { gotName = hostname; return c },
-	}
-	conn, err := d.dial(context.Background(), &url.URL{Scheme: scheme, Host: hosts[i], Path: "/"})
-	vAssert(vAnd(err == nil, conn != nil), "dial.ok")
-	vAssert(vAnd(gotNet == "tcp", gotAddr == wantAddr), "dial.address")
-	if tls {
-		vAssert(gotName == wantName, "dial.tls_hostname")
-	} else {
-		vAssert(gotName == "", "dial.no_tls_for_ws")
-	}
-	_, err = d.dial(context.Background(), &url.URL{Scheme: "http", Host: "x"})
-	vAssert(err != nil, "dial.other_scheme_refused")
 }
